@@ -1,5 +1,5 @@
 ------------------------------- MODULE MC_Ip -------------------------------
-(* C01 / C19, step 1 (ip("...") filters on IPv4).  Checked on the specification, for every pattern of a pool (single
+(* C01 / C19, step 1 (ip("...") filters on IPv4 and IPv6).  Checked on the specification, for every pattern of a pool (single
    addresses, inclusive ranges, prefixes of 0-32 bits with unmasked addresses) and every address of a pool chosen
    around the patterns' edges:
      - a prefix accepts exactly the addresses between its network and broadcast address (SamePrefix, a per-octet
@@ -38,37 +38,102 @@ LineOf(f, x) == LET t == AddrText(x) IN
     [] f = "lead0" -> AddrText(<<x[1], x[2], x[3], 0>>) \o DecText(x[4])          \* a.b.c.0d : leading zero, no address (unless d = 0: a.b.c.00)
 HoldsAddr(f) == f \notin {"fifth", "lead0"}
 
-VARIABLES pat, x, frame, kind, op, pc
-vars == <<pat, x, frame, kind, op, pc>>
-Init == pat \in Pats /\ x \in Addrs /\ frame \in Frames /\ kind \in {"line", "label", "nolabel", "junk"} /\ op \in {"eq", "neq"} /\ pc = "gen"
-        /\ (kind # "line" => frame = "alone")
+\* ---- IPv6: addresses of eight groups, spelled in several ways
+G(a, b, c, d, e, f, g, h) == <<a, b, c, d, e, f, g, h>>
+Addr6(y) == [k |-> "addr", lo |-> y, hi |-> y, bits |-> 128]
+Cidr6(y, n) == [k |-> "cidr", lo |-> y, hi |-> y, bits |-> n]
+DB8 == 3512          \* 0x0db8
+Pats6 == { Addr6(G(0, 0, 0, 0, 0, 0, 0, 1)), Addr6(G(8193, DB8, 0, 0, 0, 0, 0, 1)), Range(G(8193, DB8, 0, 0, 0, 0, 0, 1), G(8193, DB8, 0, 0, 0, 0, 0, 255)),
+           Cidr6(G(65152, 0, 0, 0, 0, 0, 0, 0), 10), Cidr6(G(0, 0, 0, 0, 0, 0, 0, 0), 0), Cidr6(G(8193, DB8, 0, 0, 0, 0, 0, 1), 32),
+           Cidr6(G(8193, DB8, 0, 0, 0, 0, 0, 1), 128), Cidr6(G(8193, DB8, 0, 0, 0, 0, 0, 1), 120), Cidr6(G(8193, DB8, 0, 0, 0, 0, 0, 1), 65),
+           Addr6(G(10, 11, 12, 13, 14, 15, 16, 43981)) }
+Addrs6 == { G(0, 0, 0, 0, 0, 0, 0, 0), G(0, 0, 0, 0, 0, 0, 0, 1), G(8193, DB8, 0, 0, 0, 0, 0, 1), G(8193, DB8, 0, 0, 0, 0, 0, 256),
+            G(8193, DB8, 0, 0, 32768, 0, 0, 1), G(65215, 65535, 0, 0, 0, 0, 0, 43981), G(65216, 0, 0, 0, 0, 0, 0, 1), G(10, 11, 12, 13, 14, 15, 16, 43981) }
+          \cup (IF Pools = "full" THEN { G(8193, DB8, 0, 0, 0, 0, 0, 255), G(8193, DB8, 0, 0, 32767, 65535, 0, 1), G(8193, 3513, 0, 0, 0, 0, 0, 0), G(65152, 0, 0, 0, 0, 0, 0, 1),
+                                         G(8193, DB8, 0, 0, 1, 0, 0, 1) } ELSE {})
+HexDig(n) == IF n < 10 THEN 48 + n ELSE 87 + n
+RECURSIVE Hex1(_)
+Hex1(n) == IF n < 16 THEN <<HexDig(n)>> ELSE Append(Hex1(n \div 16), HexDig(n % 16))
+HexPad(n) == <<HexDig(n \div 4096), HexDig((n \div 256) % 16), HexDig((n \div 16) % 16), HexDig(n % 16)>>
+UpperHex(t) == [i \in DOMAIN t |-> IF t[i] >= 97 /\ t[i] <= 102 THEN t[i] - 32 ELSE t[i]]
+RECURSIVE JoinG(_, _, _, _)
+JoinG(y, i, j, pad) == IF i > j THEN <<>> ELSE (IF pad THEN HexPad(y[i]) ELSE Hex1(y[i])) \o (IF i < j THEN <<58>> ELSE <<>>) \o JoinG(y, i + 1, j, pad)
+\* compressed at the first run of zero groups (a valid spelling, the canonical one when that run is the longest)
+Short6(y) == IF \A i \in 1..8 : y[i] # 0 THEN JoinG(y, 1, 8, FALSE)
+             ELSE LET i == CHOOSE i \in 1..8 : y[i] = 0 /\ \A m \in 1..(i - 1) : y[m] # 0
+                      j == CHOOSE j \in i..8 : (\A m \in i..j : y[m] = 0) /\ (j = 8 \/ y[j + 1] # 0)
+                  IN JoinG(y, 1, i - 1, FALSE) \o <<58, 58>> \o JoinG(y, j + 1, 8, FALSE)
+Styles6 == IF Pools = "full" THEN {"short", "full", "pad", "upper", "fullupper"} ELSE {"short", "pad", "fullupper"}
+PStyles6 == IF Pools = "full" THEN {"short", "pad", "upper"} ELSE {"short", "pad"}
+Text6(y, st) == CASE st = "short" -> Short6(y) [] st = "full" -> JoinG(y, 1, 8, FALSE) [] st = "pad" -> JoinG(y, 1, 8, TRUE)
+                  [] st = "upper" -> UpperHex(Short6(y)) [] st = "fullupper" -> UpperHex(JoinG(y, 1, 8, FALSE))
+PatText6(p, st) == CASE p.k = "addr" -> Text6(p.lo, st)
+                     [] p.k = "range" -> Text6(p.lo, st) \o <<45>> \o Text6(p.hi, "short")
+                     [] p.k = "cidr" -> Text6(p.lo, st) \o <<47>> \o DecText(p.bits)
+\* how an IPv6 address may stand in a line; the last three are near-addresses that are none
+Frames6 == {"alone", "brackets", "equals", "hexword", "trailcolon", "glued", "twice"}
+LineOf6(f, y, st) == LET t == Text6(y, st) IN
+  CASE f = "alone" -> t
+    [] f = "brackets" -> <<91>> \o t \o <<93, 58, 56, 48>>              \* [addr]:80
+    [] f = "equals" -> <<104, 61>> \o t \o <<32, 49, 48, 46, 48, 46, 48, 46, 49>>      \* h=addr 10.0.0.1
+    [] f = "hexword" -> <<97, 32>> \o t                                \* "a addr": the word before is a candidate of its own
+    [] f = "trailcolon" -> t \o <<58, 32, 116>>                          \* "addr: t": the colon belongs to the candidate
+    [] f = "glued" -> <<97, 98, 99, 100, 49>> \o t                       \* "abcd1addr": five digits in the first group
+    [] f = "twice" -> t \o <<58, 58>>                                   \* "addr::"
+HoldsAddr6(f) == f \in {"alone", "brackets", "equals", "hexword"}
 
-Line == IF kind = "line" THEN LineOf(frame, x) ELSE <<109>>
-Attrs == CASE kind = "label" -> << <<IPL, AddrText(x)>> >> [] kind = "junk" -> << <<IPL, AddrText(x) \o <<120>>>> >> [] OTHER -> <<>>
-St == IF kind = "line" THEN [t |-> "line", op |-> op, val |-> IpPatText(pat), re |-> REps, ip |-> TRUE, ipat |-> pat]
-      ELSE [t |-> "label", pred |-> [t |-> "ip", label |-> IPL, op |-> op, val |-> IpPatText(pat), ipat |-> pat, lit |-> <<>>, re |-> REps]]
+VARIABLES pat, x, frame, kind, op, pc, fam, style, pstyle
+vars == <<pat, x, frame, kind, op, pc, fam, style, pstyle>>
+\* (the combination is chosen by an ACTION, not by Init: TLC enumerates initial states on one thread)
+Init == kind = "line" /\ op = "eq" /\ pc = "init" /\ fam = 4 /\ pat = Addr(A(10, 0, 0, 1)) /\ x = A(10, 0, 0, 1) /\ frame = "alone" /\ style = "short" /\ pstyle = "short"
+Choose == /\ pc = "init" /\ pc' = "gen"
+          /\ kind' \in {"line", "label", "nolabel", "junk"} /\ op' \in {"eq", "neq"} /\ fam' \in {4, 6, 46, 64}
+          \* 46: an IPv4 pattern over IPv6 texts, 64: the reverse
+          /\ pat' \in (IF fam' \in {4, 46} THEN Pats ELSE Pats6) /\ x' \in (IF fam' \in {4, 64} THEN Addrs ELSE Addrs6)
+          /\ frame' \in (IF fam' \in {4, 64} THEN Frames ELSE Frames6)
+          /\ style' \in (IF fam' \in {6, 46} THEN Styles6 ELSE {"short"}) /\ pstyle' \in (IF fam' \in {6, 64} THEN PStyles6 ELSE {"short"})
+          /\ (kind' # "line" => frame' = "alone")
+          /\ (fam' \in {46, 64} => kind' \in {"line", "label"} /\ frame' = "alone" /\ op' = "eq")
+
+Six == fam \in {6, 46}         \* the TEXT is IPv6
+XText == IF Six THEN Text6(x, style) ELSE AddrText(x)
+PText == IF fam \in {6, 64} THEN PatText6(pat, pstyle) ELSE IpPatText(pat)
+Line == IF kind = "line" THEN (IF Six THEN LineOf6(frame, x, style) ELSE LineOf(frame, x)) ELSE <<109>>
+Attrs == CASE kind = "label" -> << <<IPL, XText>> >> [] kind = "junk" -> << <<IPL, XText \o <<120>>>> >> [] OTHER -> <<>>
+St == IF kind = "line" THEN [t |-> "line", op |-> op, val |-> PText, re |-> REps, ip |-> TRUE, ipat |-> pat]
+      ELSE [t |-> "label", pred |-> [t |-> "ip", label |-> IPL, op |-> op, val |-> PText, ipat |-> pat, lit |-> <<>>, re |-> REps]]
 Rec == [id |-> 1, ts |-> <<Base + 1, 0>>, line |-> Line, attrs |-> Attrs, doc |-> <<>>, jdoc |-> [k |-> "obj", fields |-> <<>>], jcanon |-> FALSE, jmal |-> TRUE, lmal |-> FALSE]
 Case == [in |-> [recs |-> <<Rec>>, sel |-> <<>>, stages |-> <<St>>, queries |-> <<>>, caps |-> << [label |-> <<>>, line |-> <<>>] >>, limit |-> 0 - 1,
                  start |-> <<Base - 100, 0>>, end |-> <<Base + 100, 0>>]]
-Export == pc = "gen" /\ pc' = "done" /\ UNCHANGED <<pat, x, frame, kind, op>> /\ PrintT(<<"CASE", ToJson(Case)>>)
-Next == Export
+Export == pc = "gen" /\ pc' = "done" /\ UNCHANGED <<pat, x, frame, kind, op, fam, style, pstyle>> /\ PrintT(<<"CASE", ToJson(Case)>>)
+Next == Choose \/ Export
 
 Res == Stage(St, {}, Rec, Line, RecordLabels(Rec))
-\* ---- the interval reading of a pattern
+\* ---- the interval reading of a pattern (w bits per element)
+W(p) == IF Len(p.lo) = 4 THEN 8 ELSE 16
 Lo(p) == IF p.k # "cidr" THEN p.lo
-         ELSE [k \in 1..4 |-> LET nb == IF p.bits >= 8 * k THEN 8 ELSE IF p.bits <= 8 * (k - 1) THEN 0 ELSE p.bits - 8 * (k - 1)
-                              IN (p.lo[k] \div Pow2(8 - nb)) * Pow2(8 - nb)]
+         ELSE [k \in DOMAIN p.lo |-> LET nb == IF p.bits >= W(p) * k THEN W(p) ELSE IF p.bits <= W(p) * (k - 1) THEN 0 ELSE p.bits - W(p) * (k - 1)
+                              IN (p.lo[k] \div Pow2(W(p) - nb)) * Pow2(W(p) - nb)]
 Hi(p) == IF p.k # "cidr" THEN p.hi
-         ELSE [k \in 1..4 |-> LET nb == IF p.bits >= 8 * k THEN 8 ELSE IF p.bits <= 8 * (k - 1) THEN 0 ELSE p.bits - 8 * (k - 1)
-                              IN (p.lo[k] \div Pow2(8 - nb)) * Pow2(8 - nb) + Pow2(8 - nb) - 1]
+         ELSE [k \in DOMAIN p.lo |-> LET nb == IF p.bits >= W(p) * k THEN W(p) ELSE IF p.bits <= W(p) * (k - 1) THEN 0 ELSE p.bits - W(p) * (k - 1)
+                              IN (p.lo[k] \div Pow2(W(p) - nb)) * Pow2(W(p) - nb) + Pow2(W(p) - nb) - 1]
+SameFam == fam \in {4, 6}
 WellFormed == StageWellFormed(St)
-MatchIsInterval == IpMatch(pat, x) = (AddrLeq(Lo(pat), x) /\ AddrLeq(x, Hi(pat)))
-TextRoundTrip == ParseIPv4(AddrText(x)).ok /\ ParseIPv4(AddrText(x)).a = x
-ScannerFindsIt == kind = "line" /\ HoldsAddr(frame) /\ frame # "second" => LineHasIp(Addr(x), Line)
-NearAddressesAreNone == kind = "line" /\ frame = "fifth" => Candidates(Line, 1) # <<>> /\ ~LineHasIp(Cidr(A(0, 0, 0, 0), 0), Line)
-LineFilterMeaning == kind = "line" /\ HoldsAddr(frame) /\ frame # "second" => ~Res.open /\ Res.keep = (IpMatch(pat, x) = (op = "eq"))
+MatchIsInterval == SameFam => IpMatch(pat, x) = (AddrLeq(Lo(pat), x) /\ AddrLeq(x, Hi(pat)))
+\* a pattern of one family accepts no address of the other
+FamiliesApart == ~SameFam => ~IpMatch(pat, x) /\ (kind = "line" => ~Res.keep) /\ (kind = "label" => ~Res.keep /\ ~Has(Res.L, S_error))
+\* every spelling denotes its address
+TextRoundTrip == LET a == ParseIP(XText) IN a.ok /\ ~a.open /\ a.a = x
+ScannerFindsIt == SameFam /\ kind = "line" /\ (IF Six THEN HoldsAddr6(frame) ELSE HoldsAddr(frame) /\ frame # "second") => LineHasIp(IF Six THEN Addr6(x) ELSE Addr(x), Line)
+NearAddressesAreNone == /\ (fam = 4 /\ kind = "line" /\ frame = "fifth" => Candidates(Line, 1) # <<>> /\ ~LineHasIp(Cidr(A(0, 0, 0, 0), 0), Line))
+                        /\ (fam = 6 /\ kind = "line" /\ ~HoldsAddr6(frame) => Candidates(Line, 1) # <<>> /\ ~LineHasIp(Cidr6(G(0, 0, 0, 0, 0, 0, 0, 0), 0), Line))
+LineFilterMeaning == SameFam /\ kind = "line" /\ (IF Six THEN HoldsAddr6(frame) /\ frame # "equals" ELSE HoldsAddr(frame) /\ frame # "second")
+                       => ~Res.open /\ Res.keep = (IpMatch(pat, x) = (op = "eq"))
+\* what the filter answers does not depend on how the address (or the pattern) is spelled
+SpellingIsImmaterial == fam = 6 /\ kind = "line" => \A st \in Styles6, ps \in PStyles6 :
+                          LineHasIp(ParsePat(PatText6(pat, ps)), LineOf6(frame, x, st)) = LineHasIp(pat, Line)
 NegationIsComplement == kind = "line" => Stage([St EXCEPT !.op = "eq"], {}, Rec, Line, RecordLabels(Rec)).keep # Stage([St EXCEPT !.op = "neq"], {}, Rec, Line, RecordLabels(Rec)).keep
-LabelFilterMeaning == /\ (kind = "label" => ~Res.open /\ Res.keep = (IpMatch(pat, x) = (op = "eq")) /\ Res.L = RecordLabels(Rec))
+LabelFilterMeaning == /\ (SameFam /\ kind = "label" => ~Res.open /\ Res.keep = (IpMatch(pat, x) = (op = "eq")) /\ Res.L = RecordLabels(Rec))
                       /\ (kind = "nolabel" => ~Res.keep)
                       /\ (kind = "junk" => Res.keep /\ Has(Res.L, S_error))
 NeverChangesLine == Res.line = Line
